@@ -1140,6 +1140,52 @@ func runE2E(c *fw.Ctx) {
 }
 
 // Run is the C07 check.
+// loadDifferencesFonts builds and uses fonts whose /Encoding dictionary has a
+// /Differences array before anything else runs. What such a font decodes to is
+// not judged (the statement speaks about the named base encodings and
+// ToUnicode); the point is that the named encodings, which every later font
+// and the exhaustive table comparison use, are the same afterwards.
+func loadDifferencesFonts(c *fw.Ctx) {
+	glyphs := []string{"Euro", "bullet", "emdash", "Adieresis", "eacute", "quotesingle", "grave", "fi", "Omega", "space", "A", "zero"}
+	r := c.Rand("differences")
+	n := 0
+	for _, base := range []string{"WinAnsiEncoding", "MacRomanEncoding", "StandardEncoding", ""} {
+		for _, kind := range []string{"Type1", "TrueType"} {
+			diff := core.Array{}
+			for k := 0; k < 6; k++ {
+				diff = append(diff, core.Int(32+r.Intn(200)))
+				for j := 1 + r.Intn(3); j > 0; j-- {
+					diff = append(diff, core.Name(glyphs[r.Intn(len(glyphs))]))
+				}
+			}
+			enc := core.Dict{"Type": core.Name("Encoding"), "Differences": diff}
+			if base != "" {
+				enc["BaseEncoding"] = core.Name(base)
+			}
+			d := core.Dict{"Type": core.Name("Font"), "Subtype": core.Name(kind), "BaseFont": core.Name("Helvetica"), "Encoding": enc}
+			all := make([]byte, 224)
+			for i := range all {
+				all[i] = byte(32 + i)
+			}
+			c.Guard("differences-font", "diff:"+kind+":"+base, nil, func() {
+				switch kind {
+				case "Type1":
+					if f, err := font.NewType1Font(d, store{}.resolver()); err == nil && f != nil {
+						f.Font.DecodeString(all)
+						n++
+					}
+				default:
+					if f, err := font.NewTrueTypeFont(d, store{}.resolver()); err == nil && f != nil {
+						f.Font.DecodeString(all)
+						n++
+					}
+				}
+			})
+		}
+	}
+	c.Count("fonts_with_differences_loaded_first", int64(n))
+}
+
 func Run(c *fw.Ctx) {
 	c.Rule("case = (encoding, code) | (CMap program, lookup strings) | (UTF-16 byte string) | (font dictionary, code string); " +
 		"non-trivial iff the code maps to a non-ASCII or multi-unit target (encodings, UTF-16), the CMap program has >= 1 bfrange entry, " +
@@ -1150,6 +1196,7 @@ func Run(c *fw.Ctx) {
 		"generated CMaps follow ISO 32000-1 §9.10.3 / Adobe TN 5014+5411: <= 100 entries per section, bfrange codes differ only in the last byte, offset-form ranges never carry out of the last target byte, codes unique, mixed-width codespaces prefix-free, codes of different widths numerically distinct; lookup strings contain only mapped codes",
 		"golang.org/x/text/unicode/norm is the NFC reference (same module version as tabula's)",
 	)
+	loadDifferencesFonts(c)
 	runTables(c)
 	runCMaps(c)
 	runUTF16(c)
